@@ -107,7 +107,7 @@ func rsGenKind(t *rapid.T, genuinePct int, label string) string {
 }
 
 var (
-	rsOps   = []string{"deliver", "deliver", "deliver", "deliver", "remove", "remove", "remove", "switch", "status", "timeout", "late", "flush", "flush", "nop"}
+	rsOps   = []string{"deliver", "deliver", "deliver", "deliver", "remove", "remove", "remove", "switch", "status", "timeout", "late", "flush", "flush", "nop", "nilblock"}
 	rsFroms = []string{"asked", "asked", "asked", "asked", "asked", "other", "stranger"}
 	rsWho   = []string{"eligible", "other", "lower"}
 )
@@ -353,6 +353,51 @@ func (w *rsWorld) receive(from string, msg []byte) {
 	w.bcR.Receive(bcChannel, w.peer(from), msg)
 }
 
+// nilBlockFrom delivers a block response without a block. A panic inside Receive is what
+// MConnection._recover is for (the sender loses its connection); what must not happen is that the
+// panic leaves the pool's mutex locked.
+func (w *rsWorld) nilBlockFrom(from string) {
+	msg := wire.BinaryBytes(struct{ C13Message }{&blockResponseMsg{Block: nil}})
+	panicked := false
+	func() {
+		defer func() {
+			if p := recover(); p != nil {
+				panicked = true
+			}
+		}()
+		w.bcR.Receive(bcChannel, w.peer(from), msg)
+	}()
+	if panicked {
+		w.label("nil-block-answer:receive-panics-connection-dropped")
+	} else {
+		w.label("nil-block-answer:ignored")
+	}
+	free := false
+	for i := 0; i < 200 && !free; i++ {
+		if w.pv.mtx.TryLock() {
+			w.pv.mtx.Unlock()
+			free = true
+		} else {
+			time.Sleep(10 * time.Millisecond)
+		}
+	}
+	if !free {
+		w.poolDead = true
+		w.halted = true
+		w.label("pool-locked-up")
+		w.x.Fail("pool-mutex-left-locked-by-failed-receive", "a block response without a block from peer %s made Receive fail (panicked=%v) and the pool's mutex is still held 2 s later: RemovePeer, every status response, PeekTwoBlocks and IsCaughtUp hang from now on, the node can neither sync nor switch to consensus", from, panicked)
+		return
+	}
+	if panicked {
+		if from == w.eligible {
+			w.eligible = ""
+		}
+		if _, in := w.snap().peers[from]; in {
+			w.dropPeer(from, fmt.Errorf("panic in Receive"))
+		}
+	}
+}
+
 func (w *rsWorld) sendBlock(from string, b *gtypes.Block) {
 	if w.poolDead {
 		return
@@ -520,6 +565,13 @@ func (w *rsWorld) act(a RSAct, base int64, where string) (effect bool) {
 	s := w.snap()
 	switch a.Op {
 	case "nop":
+	case "nilblock":
+		// a block response that carries no block: Receive may fail (the connection's recover then
+		// drops the sender), but the pool must stay usable for everybody else
+		if w.eligibleOK(s) && !w.poolDead {
+			w.nilBlockFrom(w.eligible)
+			effect = true
+		}
 	case "flush":
 		effect = w.flush() > 0
 	case "switch":
